@@ -870,6 +870,101 @@ def reprocess_progress(ctx):
                     "mainLoop re-enters the same handler forever" % f.qual, detail={"handler": f.qual})
     if n < 40:
         raise AnalysisError("C03.9 matched %d reprocessing returns (expected >= 40)" % n)
+    reprocess_guard(ctx)
+
+
+# A handler whose only progress before `return token` is a call that can return without having done anything (the
+# "fragment case" branch of an end-tag handler: the element is not in scope, parse error, ignore) must make the hand-back
+# conditional; otherwise mainLoop re-enters it forever in exactly that case.
+UNCONDITIONAL_REPROCESS_OK = {
+    "InSelectInTablePhase.startTagTable":
+        "the mode is entered only by InBodyPhase.startTagSelect from a table mode, with the select element just pushed; in "
+        "select modes only option / optgroup are pushed above it, so `select` is always in select scope and endTagSelect pops",
+}
+
+
+def _progress_summaries(ctx):
+    def build():
+        pm = model(ctx)
+        funcs = [f for f in ctx.repo.module(PARSER_REL).all_functions
+                 if f.cls is not None and (f.cls.is_subclass_of(pm.Phase) or f.cls is pm.HTMLParser)]
+        must = {f.fq: False for f in funcs}
+        cfgs, lt = {}, {}
+
+        def direct(x):
+            if x.kind == "stmt" and isinstance(x.ast, ast.Assign) and \
+                    any(len(attr_chain(t) or []) >= 2 and (attr_chain(t) or [""])[-1] == "phase" for t in x.ast.targets):
+                return True
+            for c in node_calls(x):
+                ch = attr_chain(c.func) or []
+                if len(ch) >= 2 and ch[-1] == "pop" and ch[-2] == "openElements":
+                    return True
+            return False
+
+        def strong(f, x):
+            if direct(x):
+                return True
+            for c in node_calls(x):
+                if f.fq not in lt:
+                    lt[f.fq] = (pm.local_types(f), pm.phase_refinements(f))
+                cal = [g for g, _ in pm.resolve_call(f, c, FRESH, lt[f.fq][0], lt[f.fq][1]) if g is not None]
+                if cal and all(must.get(g.fq, False) for g in cal):
+                    return True
+            return False
+        changed = True
+        while changed:
+            changed = False
+            for f in funcs:
+                if must[f.fq]:
+                    continue
+                if f.fq not in cfgs:
+                    cfgs[f.fq] = CFG(f.node)
+                cfg = cfgs[f.fq]
+                if cfg.entry.id not in cfg.reach_backward([cfg.exit], lambda n, f=f: strong(f, n)):
+                    must[f.fq] = True
+                    changed = True
+        return must, strong, cfgs
+    return ctx.shared("c03_progress_summaries", build)
+
+
+def reprocess_guard(ctx):
+    r = ctx.r
+    pm = model(ctx)
+    must, strong, cfgs = _progress_summaries(ctx)
+    quiet = ("parseError", "elementInScope", "ignoreEndTagCaption", "ignoreEndTagTr", "ignoreEndTagColgroup")
+    n = 0
+    for f in ctx.repo.module(PARSER_REL).all_functions:
+        if f.cls is None or not f.cls.is_subclass_of(pm.Phase) or len(f.params()) < 2:
+            continue
+        tok = f.params()[1]
+        rets = [x for x in walk_no_nested(f.node) if isinstance(x, ast.Return) and isinstance(x.value, ast.Name) and x.value.id == tok]
+        if not rets:
+            continue
+        cfg = cfgs.get(f.fq) or CFG(f.node)
+        for rt in rets:
+            nodes = cfg.locate(rt)
+            if not cfg.must_precede(nodes, lambda x: strong(f, x)):
+                continue                        # certain progress on every path to this return
+            R = nodes[0]
+            par = cfg.reach_backward([R], lambda x: strong(f, x))
+            weak = [x for x in cfg.stmt_nodes() if x.id in par and x is not R and x.kind != "test" and
+                    any((attr_chain(c.func) or [""])[0] == "self" and (attr_chain(c.func) or [""])[-1] not in quiet for c in node_calls(x))]
+            if not weak:
+                continue                        # judged by the first half of C03.9
+            n += 1
+            # is the hand-back conditional?  (some path entry -> exit avoids this return)
+            conditional = cfg.exit.id in cfg.reach_forward([cfg.entry], lambda x: x is R)
+            key = "reprocess-guard::%s@%d" % (f.qual, rets.index(rt))
+            if f.qual in UNCONDITIONAL_REPROCESS_OK and not conditional:
+                r.ok("C03.9", key, "%s:%d" % (PARSER_REL, rt.lineno), detail={"handler": f.qual, "exempt": UNCONDITIONAL_REPROCESS_OK[f.qual]})
+                continue
+            r.check("C03.9", conditional, key, "%s:%d" % (PARSER_REL, rt.lineno),
+                    "%s hands the token back for reprocessing unconditionally although the only progress before it, %s, can return "
+                    "without having changed anything (element not in scope / fragment case): mainLoop then re-enters this handler forever"
+                    % (f.qual, norm(weak[-1].ast)[:70]), {"handler": f.qual, "call": norm(weak[-1].ast)[:80]},
+                    detail={"handler": f.qual, "weak_progress": [norm(w.ast)[:60] for w in weak]})
+    if n < 15:
+        raise AnalysisError("C03.9 (guard) matched %d hand-backs after a possibly ineffective call (expected >= 15)" % n)
 
 
 # ---------------------------------------------------------------------------- C03.6
@@ -939,6 +1034,12 @@ def thorough(ctx):
 def mutants():
     from ..selftest import TextMutant as T
     return [
+        T("inrow-endtable-unguarded", "html5parser.py",
+          "        # XXX how are we sure it's always ignored in the innerHTML case?\n        if not ignoreEndTag:\n            return token",
+          "        # XXX how are we sure it's always ignored in the innerHTML case?\n        return token", "C03.9"),
+        T("intable-table-unguarded", "html5parser.py",
+          "        self.parser.phase.processEndTag(impliedTagToken(\"table\"))\n        if not self.parser.innerHTML:\n            return token",
+          "        self.parser.phase.processEndTag(impliedTagToken(\"table\"))\n        return token", "C03.9"),
         T("mode-tr-to-cell", "html5parser.py",
           "        self.tree.insertElement(token)\n        self.parser.phase = self.parser.phases[\"inRow\"]\n",
           "        self.tree.insertElement(token)\n        self.parser.phase = self.parser.phases[\"inCell\"]\n", "C03.12"),
